@@ -867,10 +867,12 @@ class _FunctionInformationCollector(ast.RopeNodeVisitor):
                 self._read_variable(name, node.lineno)
 
     def _Global(self, node):
-        self.globals_.add(*node.names)
+        for name in node.names:
+            self.globals_.add(name)
 
     def _Nonlocal(self, node):
-        self.nonlocals_.add(*node.names)
+        for name in node.names:
+            self.nonlocals_.add(name)
 
     def _AsyncFunctionDef(self, node):
         self._FunctionDef(node)
